@@ -51,6 +51,11 @@ def systems(tier):
                 # CH4 has mixed sizes (S, B): mean pair size 0.75
                 pass
             out.append(dict(types=[typ], molecules=[(typ, 1)], box=BOX, grid=GRID, dist=[(0, n - 1, d, tol)], kwargs=dict(nrewind=3, maxiter=4)))
+    # several restraints on one molecule whose paths overlap, in both orders of definition; with a cycle / persistence restraint
+    for a, b in (((0, 2, 1.0, 0.3), (0, 5, 1.5, 0.3)), ((0, 5, 1.5, 0.3), (0, 2, 1.0, 0.3)), ((0, 3, 1.5, 0.3), (0, 5, 1.0, 0.3))):
+        out.append(dict(types=["CH6"], molecules=[("CH6", 1)], box=BOX, grid=GRID, dist=[a, b], kwargs=dict(nrewind=3, maxiter=4)))
+    out.append(dict(types=["CH6"], molecules=[("CH6", 1)], box=BOX, grid=GRID, pers=dict(lp=1.0, start=0, stop=5), dist=[(0, 2, 1.0, 0.0)],
+                    kwargs=dict(nrewind=3, maxiter=4)))
     for typ in ("RING3", "RING4", "RING5", "RING6"):
         for tol in (0.0, 0.3):
             # rings need the face-diagonal directions (60 degree angles exist among them) to be closable within one step
